@@ -18,6 +18,7 @@ EXPLANATION = (
     "evaluate to 10 (table) and 2 (bucket) and Discv5::new installs both exactly when config.ip_limit is set. "
     "Witness for R1: 10 entries of one /24 plus a pending node of the same /24 in a full bucket give 11 after the "
     "pending timeout.")
+EXPLANATION += (" Added while testing: R2 tracks the table filter's verdict through flag variables and helper return values; R3 requires ip_filter to visit every stored value (no early exit) and the filters to be installed exactly when ip_limit is set.")
 NOT_DECIDED = ["the count invariant over arbitrary operation sequences as such (R1-R3 are the shape that makes each step preserve it)"]
 TRUSTED = ["Enr::ip4 returns the record's IPv4 address", "Iterator::chain / flat_map / map yield all elements of their inputs"]
 
